@@ -77,6 +77,27 @@ macro_rules! ensure_eq {
     };
 }
 
+/// Journal mode (set by the supervisor after an abnormal termination): every case is written to a per-thread
+/// file before it is executed, so that the case that kills the process can be identified afterwards.
+pub fn journal_dir() -> Option<&'static std::path::PathBuf> {
+    static DIR: std::sync::OnceLock<Option<std::path::PathBuf>> = std::sync::OnceLock::new();
+    DIR.get_or_init(|| std::env::var("VERIF_JOURNAL").ok().map(std::path::PathBuf::from)).as_ref()
+}
+
+fn journal<C: Serialize>(id: &str, part: &str, c: &C) {
+    if let Some(dir) = journal_dir() {
+        thread_local! {
+            static TID: u64 = {
+                static NEXT: AtomicU64 = AtomicU64::new(0);
+                NEXT.fetch_add(1, Ordering::Relaxed)
+            };
+        }
+        let tid = TID.with(|t| *t);
+        let body = json!({"property": id, "part": part, "case": serde_json::to_value(c).unwrap_or(Value::Null)});
+        let _ = std::fs::write(dir.join(format!("thread-{}.json", tid)), serde_json::to_vec(&body).unwrap_or_default());
+    }
+}
+
 thread_local! {
     /// false while proptest is shrinking (closure re-runs must not be counted)
     static COUNTING: Cell<bool> = const { Cell::new(true) };
@@ -432,6 +453,7 @@ where
                                 break;
                             }
                             ctx.eval();
+                            journal(ctx.id, self.name, &cases[i]);
                             if let Err(f) = run_case(ctx, self.prop, &cases[i]) {
                                 if f.slug == "harness-panic" {
                                     ctx.infra(&f.msg);
@@ -473,6 +495,7 @@ where
                             let strat = mk(ctx);
                             let r = runner.run(&strat, |c| {
                                 ctx.eval();
+                                journal(ctx.id, self.name, &c);
                                 match run_case(ctx, self.prop, &c) {
                                     Ok(()) => Ok(()),
                                     Err(f) => {
